@@ -583,3 +583,16 @@ func init() {
 		return append(b16(), planItem{register(worldScenario("C16", specEventsRich, eventOracle)), 2, 3})
 	}
 }
+
+// C05 with previews among the writers (a preview must leave the in-memory head of the chain alone)
+var specChainPreviews = worldSpec{Name: "previews-among-writers", Crash: true, Seed: seedA100,
+	Gen1: []reqSpec{{Name: "p1", Kind: "create", Script: sendScript(5, "@world", "@b"), DryRun: true}, create("c1", 5, "@world", "@b"),
+		{Name: "pm", Kind: "savemeta", TargetType: ledger.MetaTargetTypeAccount, TargetID: "c", DryRun: true}},
+	Gen2: []reqSpec{{Name: "pr", Kind: "revert", TxID: 0, DryRun: true}, {Name: "m2", Kind: "savemeta", TargetType: ledger.MetaTargetTypeAccount, TargetID: "c"}}}
+
+func init() {
+	b05 := plans["C05"]
+	plans["C05"] = func() []planItem {
+		return append(b05(), planItem{register(worldScenario("C05", specChainPreviews, chainOracle, previewOracle)), 2, 3})
+	}
+}
